@@ -21,7 +21,7 @@ from vk.specs import chain as S
 from vk.specs import universe as U
 from vk.specs import dyn as Dn
 from vk.symx import shims as SH
-from vk.symx.harness import decide, decide_true
+from vk.symx.harness import decide, decide_true, native_pass
 from vk.symx.poly import Poly, VarFactory
 from props.C09_tdvp_sym import conj_arr, unit_vec, _obj, dense_of
 
@@ -126,6 +126,8 @@ def clauses(rec, sched, template, Hop, va, micro, res, work, last_idx, to_right0
             complete = False
             break
         J = frame(template, c["snap"], cidx, c["mask"], sym)
+        if not sym:
+            yield ("frames_are_orthonormal", ctag, cj(J).T.dot(J), np.eye(J.shape[1]) * abs(c["snap"]["coeff"]) ** 2, None)
         yield ("matrix_is_the_hamiltonian_projected_on_the_current_frames", ctag, c["ham"], cj(J).T.dot(Hop.dot(J)), None)
         # the state in which the problem is posed: the tensors held at that moment (their own centre values)
         yield ("posed_in_the_state_the_previous_update_produced", ctag, dense_of(template, T, c["snap"]["coeff"]), prev_after, None)
@@ -145,6 +147,7 @@ def native_replay(t0, H, method, omega, last_idx, seed):
         from renormalizer.mps import Mpo
         rng = np.random.default_rng(seed)
         atc = S.complexify(t0, rng)
+        atc.canonicalise().canonicalise()       # optimize_mps hands single_sweep a canonical state with the centre at the start of the sweep
         Hn = S.dense(H)
         Hop = Hn if omega is None else (Hn - omega * np.eye(Hn.shape[0])) @ (Hn - omega * np.eye(Hn.shape[0]))
         rec = SweepRecorder(None, real=gs.eigh_direct)
@@ -230,6 +233,7 @@ def prove(run):
                                 else:
                                     decide(run, oid, fn, lhs, rhs, case, fields={"method": method}, numeric_replay=replay)
                             decide(run, f"frame:{fn}:hamiltonian[{tag}]", fn, S.dense(Hs), Hd, case)
+                        native_pass(run, f"rtc:{fn}:local_problems_with_the_real_kernels_incl_orthonormal_frames", fn, replay, (tag,), case)
     run.extra.setdefault("symx", {})["C08_sweep"] = {"sweep_cases": ncase, "local_problems": ncalls, "kernel_stubs": SH.KERNEL_STUBS, "shims": SH.SHIMS,
                                                      "local_eigensolver_stub": "gs.eigh_direct evaluates the real get_ham_direct on the sweep's arguments, records matrix / mask / tensors of "
                                                                                "the state, and returns fresh indeterminates on the allowed entries with energy (k+1)/8"}
